@@ -400,36 +400,84 @@ func c01r5(p *Prog, r *Reporter) {
 				r.Bad(name, construct, p.Pos(bs.st.Pos()), "a buffer (or the layout table) is replaced without refreshing the raw pointer cached next to it: reads and writes would keep using the old storage")
 			}
 		}
-		// growth copies old → new: reflect.Copy(dst, src) with src loaded before, dst loaded after the store that replaces the buffer
-		if len(bufStores) > 0 && fn.Name() == "extend" {
-			copies := 0
-			for _, site := range callsIn(fn) {
-				sc := site.Common().StaticCallee()
-				if sc == nil || sc.Pkg == nil || sc.Pkg.Pkg.Path() != "reflect" || sc.Name() != "Copy" {
+		// growth copies old → new, per replaced buffer, in extend and the archetype methods it calls:
+		// reflect.Copy(dst, src) with src loaded before the store that replaces the buffer, and dst the field re-read after it or the stored value
+		if growthFamily(p)[fn] {
+			for i, bs := range bufStores {
+				if bs.what == "layouts" {
 					continue
 				}
-				dst, src := site.Common().Args[0], site.Common().Args[1]
-				dp := apath(dst)
-				dstIsField := strings.Contains(dp, "entityBuffer") || strings.Contains(dp, ".buffers[")
-				for _, bs := range bufStores {
-					if bs.what == "layouts" {
+				found := false
+				for _, site := range callsIn(fn) {
+					sc := site.Common().StaticCallee()
+					if sc == nil || sc.Pkg == nil || sc.Pkg.Pkg.Path() != "reflect" || sc.Name() != "Copy" {
 						continue
 					}
+					dst, src := site.Common().Args[0], site.Common().Args[1]
+					dp := apath(dst)
+					dstIsField := strings.Contains(dp, "entityBuffer") || strings.Contains(dp, ".buffers[")
 					si, ok1 := src.(ssa.Instruction)
 					di, ok2 := dst.(ssa.Instruction)
 					if !ok1 || !ok2 || !instrBefore(si, bs.st) || !sameStorage(apath(src), apath(bs.st.Addr)) {
 						continue
 					}
-					// destination: the field re-read after the replacement, or the very value that was stored into it
 					if dstIsField && instrBefore(bs.st, di) || bs.st.Val == dst {
-						copies++
-						break
+						found = true
+					}
+				}
+				construct := fmt.Sprintf("growth copies old %s #%d", bs.what, i+1)
+				if found {
+					r.OK(name, construct, p.Pos(bs.st.Pos()), "reflect.Copy(new, old) with the old buffer read before and the new one after the replacement")
+				} else {
+					r.Bad(name, construct, p.Pos(bs.st.Pos()), "the buffer is replaced while growing, but its old contents are not copied into the new one (reflect.Copy(new, old) with old read before the replacement): existing rows would be lost")
+				}
+			}
+		}
+	}
+	// growing must replace both the entity buffer and the columns
+	if ext := p.Fn("ecs.(*archetype).extend"); ext != nil {
+		kinds := map[string]bool{}
+		for fn := range growthFamily(p) {
+			for _, b := range fn.Blocks {
+				for _, ins := range b.Instrs {
+					if st, ok := ins.(*ssa.Store); ok {
+						t := apath(st.Addr)
+						if strings.HasSuffix(t, ".entityBuffer") {
+							kinds["entityBuffer"] = true
+						}
+						if strings.Contains(t, ".buffers[") {
+							kinds["buffers"] = true
+						}
 					}
 				}
 			}
-			r.Check(copies >= 2, name, "growth copies old storage", p.FnPos(fn), fmt.Sprintf("%d reflect.Copy(new, old) calls whose source was read before and destination after the buffer was replaced (entity buffer and component columns)", copies))
+		}
+		r.Check(kinds["entityBuffer"] && kinds["buffers"], p.FuncName(ext), "growth replaces entity buffer and columns", p.FnPos(ext), "extend (with the methods it calls) re-allocates both the entity buffer and the component columns")
+	} else {
+		r.Anchor("ecs.(*archetype).extend")
+	}
+}
+
+// growthFamily: archetype.extend and the archetype methods it calls (transitively).
+func growthFamily(p *Prog) map[*ssa.Function]bool {
+	out := map[*ssa.Function]bool{}
+	ext := p.Fn("ecs.(*archetype).extend")
+	if ext == nil {
+		return out
+	}
+	out[ext] = true
+	for changed := true; changed; {
+		changed = false
+		for fn := range out {
+			for _, site := range callsIn(fn) {
+				if sc := site.Common().StaticCallee(); sc != nil && typeName(recvType(sc)) == "archetype" && !out[sc] {
+					out[sc] = true
+					changed = true
+				}
+			}
 		}
 	}
+	return out
 }
 
 // instrBefore: a is executed before b on every path reaching b (same block: earlier; else a's block dominates b's).
